@@ -309,6 +309,70 @@ func scenarioE(r *vh.Run, in *kit.Instance, peerCloses bool) {
 
 func countOthers(in *kit.Instance, n int) int { return n }
 
+// scenarioWriterInside: a sender is in the middle of an event on the OLD stream (it holds that stream's write
+// lock, parked at a yield point between the lines of the event) while the old stream's peer goes away and a new
+// stream registers; the old handler therefore sits between "my stream is over" and its clean-up until the
+// writer is released — after the successor has registered.
+func scenarioWriterInside(r *vh.Run, in *kit.Instance, point string) {
+	name := "writer-inside-old@" + point
+	ctl := sched.New(8*time.Second, r.Seed)
+	ctl.Install()
+	defer sched.Uninstall()
+	e := newEnv(r, in, ctl)
+	a, err := e.open("A")
+	if err != nil {
+		r.Fatal("open A: %v", err)
+	}
+	e.registered(1, 3*time.Second)
+	ctl.Hold(point)
+	sendDone := make(chan struct{})
+	go func() { defer close(sendDone); e.send("parked-on-A") }()
+	if ctl.AwaitWaiting(point, 1, 5*time.Second) < 1 {
+		r.Inconclusive(name + ": the sender did not reach the yield point")
+		ctl.Release(point)
+		return
+	}
+	eBefore := ctl.Hits("get.E")
+	a.s.Close() // the old stream's peer goes away while a writer is inside an event
+	ctl.AwaitHits("get.E", eBefore+1, 5*time.Second)
+	time.Sleep(30 * time.Millisecond) // let the old handler run up to the writer's lock
+	// the point stays held for the old stream's writer only: the new stream's own writes must pass
+	bch := make(chan *tracked, 1)
+	go func() {
+		b, err := e.open("B")
+		if err != nil {
+			bch <- nil
+			return
+		}
+		bch <- b
+	}()
+	var b *tracked
+	select {
+	case b = <-bch:
+	case <-time.After(5 * time.Second):
+	}
+	if b == nil {
+		ctl.Release(point)
+		<-sendDone
+		r.Inconclusive(name + ": the new stream could not be opened while a writer was parked on the old one")
+		return
+	}
+	r.Count("schedules_realised", 1)
+	// release the parked writer: the old handler now finishes its teardown, after the successor registered
+	ctl.Release(point)
+	<-sendDone
+	a.ended(10 * time.Second)
+	time.Sleep(30 * time.Millisecond)
+	if n := mcp.VerifListeningStreams(in.Server); n < 1 {
+		r.Violation("C11|"+name+"|old-exit-evicted-successor", "after the old stream's handler finished (it had been waiting for a writer inside an event), the session has no registered listening stream although the newer stream is open",
+			map[string]interface{}{"registered_streams": n})
+	}
+	if e.expectOn(name, "after-old-teardown", b, a) {
+		r.Distinct(name + "|send-after-old-teardown")
+	}
+	b.s.Close()
+}
+
 func scenarioSequential(r *vh.Run, in *kit.Instance, rounds int) {
 	e := newEnv(r, in, nil)
 	var prev *tracked
@@ -420,6 +484,8 @@ func main() {
 		scenarioHT(r, in)
 		scenarioE(r, in, false)
 		scenarioE(r, in, true)
+		scenarioWriterInside(r, in, "sse.write.afterid")
+		scenarioWriterInside(r, in, "sse.write.beforeterm")
 	}
 	scenarioSequential(r, in, r.Pick(12, 60))
 	for i := 0; i < r.Pick(6, 60); i++ {
